@@ -15,4 +15,5 @@ MUTANTS = [
     # revert of repair 2e2b7b6
     ('c05-revert-tick-marks-thread-for-tasks', 'C05', M, "                self._flushing_thread = current_thread()\n                for task in self._tasks.copy():", "                for task in self._tasks.copy():"),
     ('c05-sleeping-handler-not-counted-as-waiting', 'C05', M, '                # TODO: The subtask is considered a "waiting handler"\n                event.waitingHandlers += 1\n', '                # TODO: The subtask is considered a "waiting handler"\n'),
+    ('c05-revert-nested-flush-fix', 'C05', M, '        self._currently_handling = handling\n        self._eventDone(event, err)', '        self._currently_handling = None\n        self._eventDone(event, err)'),
 ]
